@@ -42,6 +42,7 @@ def gen_cases(tier, seed):
             d["max_errors"] = r.choice([0, None])
         out.append(d)
     out.extend(preempt.gen_descs(tier, seed, ID))  # deterministic single-preemption enumeration (vmon/preempt.py)
+    out.extend(preempt.gen_descs2(tier, seed, ID, pairs_quick=90))  # (k1, k2) pairs of two preemptions: lost updates / double releases
     for i in range(max(20, n // 40)):
         # "no call is executed more than once per attempt allowed by retry": several calls sharing one function object / call targets that are
         # not plain functions, flaky, with retry (attempt budgets are per CALL) - scenarios shared with C10
@@ -74,6 +75,8 @@ def run_case(desc):
         return r_
     if desc.get("mode") == "preempt1":
         return preempt.enumerate_case(desc, preempt_oracle)
+    if desc.get("mode") == "preempt2":
+        return preempt.enumerate_pairs(desc, preempt_oracle)
     R = plainrun.execute(desc, record_args=False)
     ir, H = R.ir, R.H
     calls = set(ir.harness_calls())
@@ -132,6 +135,8 @@ def finalize(agg, tier):
         reasons.append("plans had fewer than 100 unneeded calls in total")
     if c["preempt_holds_others_completed"] < 100:
         reasons.append("single-preemption enumeration: fewer than 100 holds during which the other predecessors completed their bookkeeping")
+    if c["preempt2_ta_ran_to_end_while_tb_held"] < 300:
+        reasons.append("two-preemption enumeration: fewer than 300 pairs in which the first worker ran on to the end while the second was held")
     if c["runs_failed"] < 20:
         reasons.append("fewer than 20 failing runs")
     return reasons
